@@ -99,3 +99,50 @@ def At(seq, i):
     if is_sym(seq) or is_sym(i):
         return seq[i]
     return seq[i] if 0 <= i < len(seq) else 0
+
+
+def gen_code(config, rng, n):
+    """well-formed code strings for the opcode table in config['opc'] (bounded native search): instructions
+    drawn from the jump / EXTENDED_ARG / plain opcodes of the table, zeroed inline cache words after each
+    instruction (3.11+), EXTENDED_ARG always followed by an operand-taking instruction"""
+    opc = config["opc"]
+    r = REF(opc)
+    word = opc.version_tuple >= (3, 6)
+    have = opc.HAVE_ARGUMENT
+    ext = EXT(opc)
+    jumps = sorted(set(r.hasjrel) | set(r.hasjabs))
+    hasarg = sorted(x for x in r.hasarg if x != ext and x >= have and opc.opname[x] and not opc.opname[x].startswith("<"))
+    noarg = sorted(x for x in range(1, have) if not opc.opname[x].startswith("<")) or [1]
+    out = []
+    for _ in range(n):
+        code = bytearray()
+        for _i in range(rng.randint(1, 6)):
+            roll = rng.random()
+            pre = 0
+            if ext >= 0 and roll < 0.3:
+                pre = rng.randint(1, 3 if word else 1)
+            if roll < 0.75 and jumps:
+                op = rng.choice(jumps)
+            elif roll < 0.9 and hasarg:
+                op = rng.choice(hasarg)
+            else:
+                op = rng.choice(noarg)
+                pre = 0
+            if op < have:
+                pre = 0
+            for _p in range(pre):
+                if word:
+                    code += bytes([ext, rng.choice([0, 1, 2, 255, rng.randrange(256)])])
+                else:
+                    code += bytes([ext, rng.randrange(256), rng.choice([0, 1, rng.randrange(256)])])
+            if word:
+                code += bytes([op, rng.choice([0, 1, 2, 3, 5, 255, rng.randrange(256)])])
+                for _c in range(r.caches.get(op, 0) if opc.version_tuple >= (3, 11) else 0):
+                    code += b"\x00\x00"
+            else:
+                if op >= have:
+                    code += bytes([op, rng.randrange(256), rng.choice([0, 0, 1, rng.randrange(256)])])
+                else:
+                    code += bytes([op])
+        out.append(bytes(code))
+    return out
